@@ -84,6 +84,18 @@ func clampYear(y int) int {
 	return y
 }
 
+// outYear: a civil year outside 1..9999 (the pure date helpers and Solar itself accept them).
+func (g *c09gen) outYear() int {
+	return g.r.Pick([]int{0, -1, -7, -400, -4712, -4713, 10000, 10001, 10400, 12000, 20000})
+}
+
+func (g *c09gen) outP() float64 {
+	if g.focus == "util" {
+		return 0.15
+	}
+	return 0.05
+}
+
 // relatedDeltas: distances between keys that a too-coarse cache key, a striped lock or a sharded table folds together
 var relatedDeltas = []int{12, 19, 60, 100, 400, 1000, 1024, 16, 64, 128, 256}
 
@@ -325,12 +337,19 @@ func (g *c09gen) baseOp0() ops.Op {
 	case "su_between":
 		y1, m1, d1 := g.solarYmd(g.anyYear())
 		y2, m2, d2 := g.solarYmd(g.anyYear())
+		if r.Chance(g.outP()) {
+			y2 = g.outYear()
+		}
 		return ops.Op{K: k, A: []int{y1, m1, d1, y2, m2, d2}}
 	case "solar_rel":
 		a := g.solarArgs()
 		b := g.solarArgs()
 		if r.Chance(0.3) {
 			b[0], b[1] = a[0], a[1]
+		}
+		if r.Chance(g.outP()) {
+			// the civil calendar has no year limits: years before 1 and after 9999 are ordinary arguments here
+			b[0] = g.outYear()
 		}
 		return ops.Op{K: k, A: append(a, b...)}
 	case "lu_day":
@@ -556,7 +575,7 @@ func C09(seed uint64, run int) *spec.Spec {
 	if g.wide {
 		g.focus = r.PickS([]string{"lyear", "lyear", "lmonth", "lunar"})
 	} else if r.Chance(0.5) {
-		g.focus = r.PickS([]string{"lmonth", "lyear", "lunar", "solar", "holiday", "nav", "fortune", "jd", "util", "lmonth", "lyear", "lunar", "solar", "nav"})
+		g.focus = r.PickS([]string{"lmonth", "lyear", "lunar", "solar", "holiday", "nav", "fortune", "jd", "util", "lmonth", "lyear", "lunar", "solar", "nav", "util"})
 		if r.Chance(0.6) {
 			g.hot = g.hot[:1]
 		}
@@ -605,6 +624,15 @@ func C09(seed uint64, run int) *spec.Spec {
 		if big {
 			nTasks = r.Range(4, 6)
 		}
+	}
+	crowd := false
+	if kind != 0 && !g.wide && !g.exact && r.Chance(0.035) {
+		// a crowd: 9-14 callers with one to three cheap constructions each, all inside the library at once - what a
+		// server does, and the only way to exhaust a fixed-size pool, a semaphore or a set of per-CPU slots
+		crowd = true
+		big = false
+		nTasks = r.Range(9, 14)
+		g.focus = r.PickS([]string{"lyear", "lyear", "lunar", "lmonth", "solar"})
 	}
 	sweep := ""
 	if g.wide && r.Chance(0.35) {
@@ -718,6 +746,12 @@ func C09(seed uint64, run int) *spec.Spec {
 		}
 		if g.wide {
 			n = nUniv
+		}
+		if crowd {
+			n = r.Range(1, 3)
+		}
+		if g.focus == "util" && kind != 0 {
+			n = r.Range(6, 16) // the helpers are cheap: longer scripts, more chances for two callers to meet inside one
 		}
 		if big {
 			n = r.Range(6, 14)
@@ -919,6 +953,14 @@ func C09(seed uint64, run int) *spec.Spec {
 			if len(c.Targeted) == 0 {
 				c.Targeted = []int{r.Intn(2)}
 			}
+		}
+	}
+	if crowd {
+		// everybody inside at the same time: frequent switches
+		c.Policy, c.PCTDepth, c.PCTSpan, c.Targeted = "random", 0, 0, nil
+		c.SwitchP = []float64{0.02, 0.1, 0.3, 0.5}[r.Intn(4)]
+		if r.Chance(0.25) {
+			c.Policy, c.SwitchP = "rr", 0
 		}
 	}
 	if f.Stall {
